@@ -16,7 +16,7 @@ MCInit == Init /\ o = Feed(Obs!Step(Obs!Init0, CfgEv), ev)
 MCNext == Next /\ o' = Feed(o, ev')
 MCSpec == MCInit /\ [][MCNext]_<<vars, o>>
 
-Known == {"C05.F1.BusExactlyOnce", "C17.F1.InOrder"}
+Known == {"C05.F1.BusExactlyOnce", "C05.F2.BusExactlyOnce", "C17.F1.InOrder"}
 C05Tags == {"C05.BusExactlyOnce", "C05.BusOrder", "C05.BusTwice", "C05.AppExactlyOnce", "C05.AppOrder", "C05.F1.BusExactlyOnce"}
 \* C05 assumes a rule-following gateway, no forged acknowledgements and datagrams that do not outlive
 \* their connection: not judged with the adversary on or across reconnects
